@@ -63,11 +63,12 @@ theorem spec_genname (env : PEnv) (md : Maildir) (flags : Option Bytes) (fid0 : 
 structure Frd (fid0 : Nat) (c0 : Bytes) (w0 wa w : World) : Prop where
   fr : Frm fid0 c0 w0 w
   dirs : w.dirs = wa.dirs
+  lena : wa.handles.length ≤ w.handles.length
 
 theorem Frd.step {fid0 c0} {w0 wa w : World} (s : Frd fid0 c0 w0 wa w) (c : Call) (r : Res) (hd : Call.dirOp c = false)
     (hsub : ∀ h, Call.subject c = some h → w0.handles.length ≤ h) (hfs : fileSafe w fid0 c) :
     Frd fid0 c0 w0 wa (stepWorld w c r) :=
-  ⟨s.fr.step c r hsub hfs, by simp [core_dirs w c r hd, s.dirs]⟩
+  ⟨s.fr.step c r hsub hfs, by simp [core_dirs w c r hd, s.dirs], by simpa using Nat.le_trans s.lena (core_len w c r)⟩
 
 /-- State while the stream `N` on file `fid` is being written. -/
 structure WS (fid0 : Nat) (c0 : Bytes) (w0 wa : World) (N : Handle) (fid : Nat) (w : World) (f : File) (buf : Bytes) : Prop where
@@ -186,7 +187,7 @@ theorem spec_messageWriteP {fid0 : Nat} {c0 : Bytes} {w0 : World} (m : Msg) (fd 
   unfold messageWriteP
   simp only [bind_eq, pure_eq, call_bind]
   intro r hp
-  have fd0 : Frd fid0 c0 w0 w w := ⟨fr, rfl⟩
+  have fd0 : Frd fid0 c0 w0 w w := ⟨fr, rfl, Nat.le_refl _⟩
   have fd1 := fd0.step (.dupfd fd) r rfl (by intro _ h; cases h) trivial
   rcases possible_handle hp rfl rfl with rfl | ⟨e, rfl⟩
   rotate_left
